@@ -43,8 +43,74 @@ def LAWS(family, **kw):
     return MC("laws-" + family, "MC_Laws", "MC_Laws_%s.cfg" % family, workers=12, **kw)
 
 
+def durability(ctx, st):
+    """C05 (v): run a history of writes under strace and let TLC check the fsync-before-ack discipline."""
+    import json, os, re, subprocess
+    from . import core
+    n = st["n"][0] if ctx.tier == "quick" else st["n"][1]
+    lines = []
+    tot = {"W": 0, "S": 0, "A": 0}
+    for i in range(n):
+        seed = ctx.seed * 1000 + i
+        d = os.path.join(ctx.work, "dur-%d" % i)
+        os.makedirs(d)
+        tr = os.path.join(d, "strace.txt")
+        r = subprocess.run(["strace", "-f", "-qq", "-e", "trace=pwrite64,write,fdatasync,fsync,openat", "-o", tr,
+                            ctx.driver, "crashchild", "-dir", d, "-backend", "bolt", "-seed", str(seed)],
+                           stdout=subprocess.PIPE, stderr=subprocess.STDOUT, text=True, timeout=600)
+        if r.returncode != 0 or "DONE" not in r.stdout:
+            raise core.Inconclusive("strace run failed: %s" % r.stdout[-500:])
+        fd = None
+        evs = [{"ev": "R", "seed": seed}]
+        for ln in open(tr, errors="replace"):
+            m = re.search(r'openat\(AT_FDCWD, "[^"]*data\.db", [^)]*\) = (\d+)', ln)
+            if m:
+                fd = m.group(1)
+                continue
+            if fd is None:
+                continue
+            if re.search(r'\b(pwrite64|write)\(%s,' % fd, ln):
+                evs.append({"ev": "W"})
+            elif re.search(r'\b(fdatasync|fsync)\(%s\)' % fd, ln):
+                evs.append({"ev": "S"})
+            elif re.search(r'\bwrite\(1, "ACK ', ln):
+                evs.append({"ev": "A"})
+        for e in evs:
+            if e["ev"] in tot:
+                tot[e["ev"]] += 1
+        lines.append([json.dumps(e) + "\n" for e in evs])
+        import shutil
+        shutil.rmtree(d, ignore_errors=True)
+    if tot["W"] == 0 or tot["A"] == 0:
+        raise core.Inconclusive("vacuous durability trace: %s" % tot)
+    ctx.traces += len(lines)
+    ctx.events += sum(len(x) for x in lines)
+    ctx.evaluations += tot["A"]
+    ctx.outcomes["durability/acks"] = tot["A"]
+    ctx.outcomes["durability/data-file-writes"] = tot["W"]
+    ctx.outcomes["durability/syncs"] = tot["S"]
+    ctx.samples.append({"durability_trace_head": [json.loads(x) for x in lines[0][:12]]})
+    found = core.validate_traces(ctx, "TraceDur", ["InvDurable"], lines, "dur", chunk=4)
+    ctx.stage_log.append({"stage": "durability", "processes": n, "syscalls": tot, "rejections": len(found)})
+    for info in found[:1]:
+        rdir = os.path.join(ctx.root, "replays", ctx.prop)
+        os.makedirs(rdir, exist_ok=True)
+        path = os.path.join(rdir, "durability-seed%d.json" % ctx.seed)
+        with open(path, "w") as f:
+            json.dump({"property": ctx.prop, "invariant": "InvDurable", "replay_fn": "durability", "stage": {"n": [n, n]},
+                       "seed": ctx.seed, "events_head": [json.loads(x) for x in info["trace"][:info["line_in_trace"]][-20:]]}, f, indent=1)
+        ctx.violations.append({"replay": path, "invariant": "InvDurable", "event": {"ev": "A"}})
+        print("VIOLATION property=%s replay=%s" % (ctx.prop, path), flush=True)
+        ctx.log("  an operation was acknowledged while writes to data.db were not yet synced")
+
+
+def replay_durability(ctx, rep):
+    durability(ctx, {"n": rep["stage"]["n"]})
+    return 1 if ctx.violations else 0
+
+
 PLANS = {}
-REPLAYS = {}
+REPLAYS = {"durability": replay_durability}
 
 PLANS["C01"] = {
     "level": "model_checking",
@@ -222,3 +288,33 @@ PLANS["C18"] = {
 }
 
 PLANS["C15"]["stages"].append(AUX("cursor", "cursor", (60, 1500)))
+
+PLANS["C04"] = {
+    "level": "fault_enumeration",
+    "assumptions": L1_ASSUME + ["store failures are injected by a store.Store decorator at the k-th fallible call "
+                                "(begin, get, set, delete, cursor item read, commit); a failing commit rolls the underlying transaction back"],
+    "rule": "evaluations = public calls executed (setup, faulted calls, follow-up writes); a case is one (operation kind, failing "
+            "call kind, outcome) tuple; distinct_nontrivial counts the distinct tuples observed",
+    "stages": [
+        T("fault", "-", (6, 60), ["InvFault", "InvFaultRest", "InvNoPanic"], cmd="fault", args=["-mode", "one", "-targets", "9"], chunk=1),
+        T("fault-all", "-", (0, 12), ["InvFault", "InvFaultRest", "InvNoPanic"], cmd="fault", args=["-mode", "one", "-targets", "0", "-followup", "3"], chunk=1, tier="thorough", seed_off=500),
+        T("invalid", "audit", (40, 800), ["InvErrNoTrace", "InvOutcome"]),
+        T("ids", "ids", (30, 600), ["InvErrNoTrace", "InvOutcome"]),
+        T("io", "io", (20, 400), ["InvErrNoTrace", "InvC19"]),
+    ],
+}
+
+PLANS["C05"] = {
+    "level": "fault_enumeration",
+    "assumptions": L1_ASSUME + ["crash = process kill (SIGKILL) or abandonment of the store transaction at a chosen call; power loss with torn "
+                                "sectors is out of reach; for badger only process-kill durability is claimed"],
+    "rule": "evaluations = public calls executed; a case is one (operation kind, abandoned call kind / kill instant class, outcome) tuple",
+    "stages": [
+        T("reopen", "reopen", (24, 600), ["InvReopen", "InvAudit", "InvOneTx"], backends="bolt,badger", args=["-txlog"], chunk=6),
+        T("abandon", "-", (4, 40), ["InvFault", "InvFaultRest", "InvReopen", "InvNoPanic"], cmd="fault",
+          args=["-mode", "abandon", "-targets", "7"], chunk=1),
+        T("onetx", "general", (20, 400), ["InvOneTx"], args=["-txlog"]),
+        T("kill", "-", (30, 600), ["InvCrash", "InvCrashAcks"], cmd="crash", args=["-workdir", "{work}"], chunk=10),
+        {"kind": "custom", "name": "durability", "fn": durability, "n": (2, 12)},
+    ],
+}
